@@ -205,6 +205,26 @@ def run_case(rng, ctx):
     if n:
         k = rng.randrange(n)
         laws.eq("index-is-the-layer", d[k], d[k:k + 1], k=k)
+        # negative indices count from the end, and the layer they return is a
+        # diagram like any other (composed, daggered, sliced on)
+        last = d[-1]
+        laws.eq("index-is-the-layer", last, d[n - 1:n], k=-1)
+        laws.eq("index-is-the-layer", d[-n], d[0:1], k=-n)
+        laws.eq("index-is-the-layer", d[:-1] >> last, d, how="d[:-1] >> d[-1]")
+        laws.eq("slice-two-halves", last[:0] >> last[0:], last, of="d[-1]")
+        if has_dagger:
+            laws.eq("dagger-involutive", last[::-1][::-1], last, of="d[-1]")
+            laws.eq("dagger-reverses-composition", (d[:-1] >> last)[::-1],
+                    d[::-1], of="d[:-1] >> d[-1]")
+    if has_dagger and kit.name != "biclosed":
+        # reversed slices: the list reading, then the dagger
+        for k in ([rng.randrange(n)] if n else []) + [0][:n] + [n - 1][:n]:
+            laws.eq("slice-reversed-two-halves", d[:k:-1] >> d[k::-1], d[::-1], k=k)
+        for box in d.boxes[:2]:
+            laws.eq("slice-reversed-two-halves", box[:0:-1] >> box[0::-1],
+                    box[::-1], of="bare box")
+            laws.eq("slice-reversed-two-halves", box[:0:-1], kit.id(box.cod),
+                    of="bare box, empty reversed slice")
     # -- non-vacuity --------------------------------------------------------
     extra = kit.rand_diagram(rng, 1, dom=d.cod)
     if len(extra) == 1:
